@@ -107,7 +107,8 @@ size_t splinetable<Alloc>::estimateMemory(const std::string& filePath,
 
 template<typename Alloc>
 bool splinetable<Alloc>::read_fits(const std::string& filePath){
-	if(ndim!=0)
+	//auxiliary keys can be stored before there is a spline, and reading replaces them
+	if(ndim!=0 || naux!=0)
 		throw std::runtime_error("splinetable already contains data, cannot read from file");
 	
 	fitsfile* fits;
@@ -137,7 +138,8 @@ bool splinetable<Alloc>::read_fits(const std::string& filePath){
 	
 template<typename Alloc>
 bool splinetable<Alloc>::read_fits_mem(void* buffer, size_t buffer_size){
-	if(ndim!=0)
+	//auxiliary keys can be stored before there is a spline, and reading replaces them
+	if(ndim!=0 || naux!=0)
 		throw std::runtime_error("splinetable already contains data, cannot read from (memory) file");
 	
 	fitsfile* fits;
